@@ -62,13 +62,15 @@ PROPS["C05"] = {
             "with adversarial heads/tails (newlines, '$3\\r\\n', CRLF), commands 0..30 KB; incr/dumpfile: runIncrementalSync/dumpRDBFile on an "
             "exact chunk oracle with bufio sizes 16..1 MiB and pipe capacities 4 KiB..1 MiB, incl. announced sizes the source does not cover "
             "(abort expected); psyncraw/reply/wait: malformed, odd and incomplete reply lines and headers; iocopy: request size vs max and "
-            "buffer length. non-trivial = every case except command-less +CONTINUE and unfragmented/RDB-less oracle cases; distinct by case text",
+            "buffer length; handover: real utils.NewRDBLoader on a bufio.Reader over a well-formed RDB file (C01's generator) followed by command bytes, "
+            "delivered in 1..n-byte reads with a pause in front of the last 0..9 RDB bytes: bytes taken when the entry channel closes, and the rest. non-trivial = every case except command-less +CONTINUE and unfragmented/RDB-less oracle cases; distinct by case text",
     "equal": _equal,
     "nontrivial": _nontrivial,
     "signature": _signature,
     "trusted": ["Go: bufio.Reader.Read/ReadByte/ReadBytes, net.Conn, strconv.Atoi/ParseInt, strings.Split/ToLower (ASCII) semantics as modelled",
                 "pkg/libs/io/pipe is a lossless FIFO (C09)",
-                "the RDB consumer reads exactly the n announced bytes (C01: the loader stops after the checksum)"],
+                "the RDB consumer reads exactly the n announced bytes: proved for the loader model (C01 parse_exact, any bytes behind the checksum), "
+                "checked on utils.NewRDBLoader by the handover cases"],
     "assumptions": ["status words are ASCII (a non-ASCII word is reported as `unmodelled`, never generated)",
                     "offsets stay below 2^63-1 (no int64 wrap-around of offset+1)",
                     "reconnect path of runIncrementalSync (a second SendPSyncContinue whose results are discarded) is outside this property's model"],
